@@ -13,6 +13,8 @@
 # See the License for the specific language governing permissions and
 # limitations under the License.
 
+import copy
+
 import torch
 from opacus.grad_sample.grad_sample_module_fast_gradient_clipping import (
     GradSampleModuleFastGradientClipping,
@@ -104,7 +106,8 @@ class DPLossFastGradientClipping:
 
         self.optimizer = optimizer
         self.module = module
-        self.criterion = criterion
+        # the per-sample criterion is a copy: the caller's criterion keeps its reduction
+        self.criterion = copy.copy(criterion)
         self.loss_reduction = loss_reduction
         self.criterion.reduction = "none"
 
